@@ -67,7 +67,7 @@ class C13(PropBase):
     coq_dirs = ["Base", "C08", "C03", "C12", "C13", "Gen"]
     translators = ["c13_sites.py"]
     bins = ["c13"]
-    impl_timeout = 2400
+    impl_timeout = 6000
     impl_mem_gb = 4
     rule = ("direct-oracle cases: one (dump, symbols[, evil-json]) pair processed runs(6..8) x 3 executors (poll-to-completion, seeded "
             "random release of parked lookups, multi-thread tokio) with a fresh Symbolizer and per-run rotated supplier delay scripts; "
